@@ -304,7 +304,7 @@ class Engine(object):
         x = to_real(x)
         if self.implicit_raise(x < 0, "ValueError(sqrt)"):
             raise PyRaise(self.interp.make_exc("ValueError", "math domain error"))
-        key = str(z3.simplify(x.t))
+        key = str(z3.simplify(x.t, som=True, sort_sums=True))   # canonical sum-of-monomials form
         if key in self.sqrt_cache:
             return self.sqrt_cache[key]      # sqrt is a function: the same argument gives the same symbol
         s = self.fresh_real("sqrt")
